@@ -742,6 +742,43 @@ def normalise(mol):
     return m
 
 
+def via_histories(rng, mol):
+    """the same structure arrived at through other public-API histories (each ends in the library's own label
+    re-validation): edit round trip, cut out of a mixture, full substructure, transaction"""
+    from chython import smiles
+    out = []
+    try:
+        c = mol.copy()
+        n = c.add_atom('C')
+        c.delete_atom(n)
+        out.append(('history:add_atom+delete_atom', c))
+    except Exception as e:  # noqa
+        out.append(('history:add_atom+delete_atom', e))
+    try:
+        other = smiles(rng.choice(['O', 'CCO', '[Na+]', 'c1ccccc1']))
+        u = mol.union(other, remap=True)
+        parts = u.split()
+        keep = max(parts, key=len) if len(mol) > len(other) else None
+        if keep is not None and mol.connected_components_count == 1 and len(keep) == len(mol):
+            out.append(('history:union+split', keep))
+    except Exception as e:  # noqa
+        out.append(('history:union+split', e))
+    try:
+        out.append(('history:substructure', mol.substructure(list(mol._atoms))))
+    except Exception as e:  # noqa
+        out.append(('history:substructure', e))
+    try:
+        c = mol.copy()
+        k = next(iter(c._atoms))
+        with c:
+            ch = c._atoms[k].charge
+            c._atoms[k].charge = ch
+        out.append(('history:transaction', c))
+    except Exception as e:  # noqa
+        out.append(('history:transaction', e))
+    return out
+
+
 def reread_own(rng, mol):
     """the library's own random-order writer, read back"""
     import chython.algorithms.smiles as sm
@@ -1161,6 +1198,14 @@ def relational(ctx, mols=None, nvar=None):
             ok = compare(ctx, name, base, s0, h0, 'renumber+reinsert', c, sorted(mapping.items())[:12], mapping)
             if ok and r == 0:
                 compare_formats(ctx, name, base, c, mapping)
+        if stereo_elements(base) or rng.random() < 0.2:
+            for hk, m2 in via_histories(rng, base):
+                if isinstance(m2, Exception):
+                    ctx.dist(f'R:skipped:{hk}:{type(m2).__name__}')
+                elif census(m2) == census(base):
+                    compare(ctx, name, base, s0, h0, hk, m2, hk)
+                else:
+                    ctx.dist(f'R:skipped:{hk}:census-differs')
         try:
             from chython import smiles as _smiles
             m2 = normalise(_smiles(s0))
